@@ -23,7 +23,7 @@ BINS = ("pworker", "mc_heap")
 NEEDS_WORKER = False
 TECHNIQUE = ("explicit enumeration of all heap operation sequences x free-space levels on the real Heap "
              "under a red-zone (canary) allocator; invariant checked after every operation")
-RULE = ("all sequences of length d over 55 operations {push_cell, allocate_pstr/cstr of ASCII strings of 0..24 bytes, "
+RULE = ("all sequences of length d over 59 operations {sized_iter_to_heap_list of 0..3 elements, push_cell, allocate_pstr/cstr of ASCII strings of 0..24 bytes, "
         "multi-byte and NUL-containing strings, copy_pstr_within, copy_slice_to_end, append(0..3 cells), "
         "reserve+fill(0..3), truncate} x a free-space level in cells chosen before every operation "
         "(0..8 for d<=2; {0,1,2,8} for d=3) x growth mode {doubling, one-cell}. Non-trivial: the operation writes at "
@@ -107,7 +107,7 @@ def run_machine(shard):
         w.consult(MACHINE_HELPER, persist=True)
         cases = list(machine_cases(pad))
         for batch in px.chunked(cases, 60):
-            w.rpc({"op": "tight", "on": True})
+            w.rpc({"op": "tight", "on": True, "exact": True})
             rs = px.run_goals(w, ["g((%s))" % g for (_, g) in batch])
             w.rpc({"op": "tight", "on": False})
             smashed = w.rpc({"op": "rz"}).get("smashed", 0)
@@ -139,7 +139,7 @@ def recheck_machine(c):
     w = pool.Worker(extra_env={"PW_REDZONE": "1"})
     try:
         w.consult(MACHINE_HELPER, persist=True)
-        w.rpc({"op": "tight", "on": True})
+        w.rpc({"op": "tight", "on": True, "exact": True})
         r = px.run_goals(w, ["g((%s))" % goal])[0]
         w.rpc({"op": "tight", "on": False})
         # growth and release of the heap verify the canaries of the old blocks
